@@ -139,6 +139,22 @@ func (g *vgen) dec(b []byte) {
 	fmt.Fprintln(g.w, line)
 }
 
+// determinism (C04): bytes and digest obtained for one VAA must not change when other VAAs are serialized afterwards,
+// and recomputing them gives the same result.
+func (g *vgen) stable(v, other *VAA) {
+	keepBody := v.SerializeBody()
+	keepWire, _ := v.Marshal()
+	keepDig := v.SigningMsg()
+	_ = other.SerializeBody()
+	_, _ = other.Marshal()
+	_ = other.SigningMsg()
+	fmt.Fprintf(g.w, "eq %s signing-body-not-stable %s %s\n", g.id("stb"), vhex(keepBody), vhex(v.SerializeBody()))
+	w2, _ := v.Marshal()
+	fmt.Fprintf(g.w, "eq %s wire-bytes-not-stable %s %s\n", g.id("stb"), vhex(keepWire), vhex(w2))
+	fmt.Fprintf(g.w, "eq %s digest-not-stable %x %x\n", g.id("stb"), keepDig.Bytes(), v.SigningMsg().Bytes())
+	fmt.Fprintf(g.w, "eq %s digest-not-double-keccak-of-held-body %x %x\n", g.id("stb"), keepDig.Bytes(), crypto.Keccak256(crypto.Keccak256(keepBody)))
+}
+
 func (g *vgen) body(v *VAA) {
 	b := v.SerializeBody()
 	kk := crypto.Keccak256(crypto.Keccak256(b))
@@ -419,6 +435,9 @@ func TestVerifVaa(t *testing.T) {
 				g.body(v)
 				if round == 0 && pl <= 1002 {
 					g.digestLaws(v)
+				}
+				if pl <= 1002 {
+					g.stable(v, g.randVAA(ns, 1+g.r.Intn(200)))
 				}
 				// structured mutations of the valid encoding
 				if pl <= 100 && ns <= 2 {
